@@ -48,6 +48,13 @@ CLAIMS.update({
             NOTE_C + "; __prefix_trait__ (longest-prefix search, Python), add_trait/remove_trait and the class-dictionary cache coherence are not yet under contract", "6 C13"),
 })
 
+CLAIMS.update({
+    "C15": ("Translator of the mini-language, by structural induction over parse trees: each _handle_* function of parsing.py is proved to yield the documented meaning den(tree, notify) in an abstract path algebra (notify on an element iff last or followed by '.', 'items' = trait items | dict | list | set items, all optional), given the same for its sub-trees; _handle_tree dispatches every rule name of the grammar file to the handler of that construct and rejects unknown labels. The generated LALR tables are covered by a BOUNDED stand-in (all token strings up to length 5 / 7 vs an Earley recogniser built from the grammar text), reported separately and not counted as proved.",
+            NOTE_PY + "; contracts of the expression constructors / then / | (paths algebra) are assumed: expression.py -> ObserverGraph compilation and graph equality/hash are not yet under contract; parse()'s lru_cache transparency not proved", "6 C15"),
+    "C17": ("AdaptationManager.adapt: returns the object itself iff its type provides the protocol (without searching), else the search result, AdaptationError / the supplied default exactly when the search finds none, only factory errors propagate; the edge comparator orders by MRO distance then by strict-subclass specificity. Completeness and minimality of the _adapt search are covered by a BOUNDED stand-in (exhaustive small offer graphs vs brute-force chain enumeration), reported separately and not counted as proved.",
+            NOTE_PY + "; _adapt's soundness invariant, _get_applicable_offers, register_* and the C side validate_trait_adapt are not yet under contract", "6 C17"),
+})
+
 NOT_YET = "not claimed yet: the contracts for this property are still being built (plan in DESIGN.md section 6); no other technique is substituted"
 
 
